@@ -287,10 +287,15 @@ func (c *Ctx) ruleS2(rule string) {
 					sameEl = true
 				}
 			}
+			why := ""
 			if calleeIs(b.call, pBase, "ElseIfStmt", "Evaluate") {
-				sameEl = true
+				// ElseIfStmt.Evaluate evaluates the condition itself: after IfStmt has already
+				// evaluated it, the condition (and its side effects) would run twice, and a
+				// different second outcome would end the chain without any branch
+				sameEl = false
+				why = " (the branch is run through ElseIfStmt.Evaluate, which evaluates the condition a second time)"
 			}
-			c.Check(rule, "IfStmt.Evaluate#elseif-body-under-own-condition", ok && sameEl, b.call.Pos(), "an else-if body must run only when the if condition was false and its own condition is true")
+			c.Check(rule, "IfStmt.Evaluate#elseif-body-under-own-condition", ok && sameEl, b.call.Pos(), "an else-if body must run only when the if condition was false and its own condition is true, the condition being evaluated once%s", why)
 		case "else":
 			ok := x.edgeDominated(ifTest.Block(), 1)[b.call.Block()]
 			// not reachable from the else-if true edge
